@@ -366,11 +366,7 @@ func (c *svcClient) pump(all bool) bool {
 func scenarioC20Service(rc *RunCtx) *Violation {
 	g := rc.G
 	p := GenProject(g, "/p")
-	if len(p.Mods) > 6 {
-		for _, m := range p.Mods[6:] {
-			m.Deleted = true
-		}
-	}
+	p.Trim(6)
 	for _, m := range p.Mods {
 		m.Feat &^= FeatWarn | FeatSourceMapComment
 	}
